@@ -161,6 +161,14 @@ def build(r, pos, nl):
     elif pos == "include-file-expr":
         ln = main.add('<%include file="${boom(\'T\')}"/>' + nl)
         chain = [(M, ln)]
+    elif pos == "second-module-function":
+        # two <%! %> blocks with other lines between them; the function that raises is defined in the second
+        main.add("<%!" + nl + "    first_ = 1" + nl + "%>" + nl)
+        main.add("between one" + nl + "between two" + nl)
+        filler(r, main, r.randint(0, 2))
+        lb = main.add("<%!" + nl + "    def mfn2_(a):" + nl + "        boom('T')" + nl + "        return a" + nl + "%>" + nl) + 2
+        lc = main.add("call ${mfn2_(1)}" + nl)
+        chain = [(M, lc), (M, lb)]
     elif pos in ("module-function", "module-function-ns"):
         # a function defined in a <%! %> block, called from the body; the template may also carry a namespace tag
         # (which adds generated code between the module block and the render functions)
@@ -276,7 +284,7 @@ def build(r, pos, nl):
 
 
 # (a raise in a <%! %> block happens while the Template is constructed, before it can be rendered: out of scope)
-POSITIONS = ["expr", "expr-multiline", "control", "module-function", "module-function-ns", "for-iterable", "for-iterable-loop", "loop-body", "elif-test", "while-test", "call-expr", "tag-attr",
+POSITIONS = ["expr", "expr-multiline", "control", "module-function", "module-function-ns", "second-module-function", "for-iterable", "for-iterable-loop", "loop-body", "elif-test", "while-test", "call-expr", "tag-attr",
              "include-file-expr", "code-line", "def", "nested-def", "call-body", "block", "anon-block",
              "filter", "decorator", "relay-back", "include", "namespace-def", "inherit-base", "inherit-child"]
 PATHS = ["put_string", "file-lookup", "moddir-first", "moddir-reload", "moddir-relative", "modfile-relative"]
@@ -474,6 +482,7 @@ WARNERS = {
     "code-is-literal": ("<%\n    wq_ = 1\n    wr_ = (wq_ is 1)\n%>", SyntaxWarning),
     "module-warn": ("<%!\n    mw_ = 1\n    warn_here('planted-warning')\n%>", UserWarning),
     "module-warn-ns": ("<%namespace name=\"m_\" module=\"os.path\"/>\n<%!\n    mw_ = 1\n    warn_here('planted-warning')\n%>", UserWarning),
+    "module-warn-second": ("<%!\n    first_ = 1\n%>\nbetween one\nbetween two\n<%!\n    mw_ = 1\n    warn_here('planted-warning')\n%>", UserWarning),
     "control-is-literal": ("% if 1 is 1:\nx\n% endif", SyntaxWarning),
     "for-iterable-escape": ("% for wi_ in ('\\d',):\n${wi_}\n% endfor", SyntaxWarning),
     "for-iterable-escape-loop": ("% for wi_ in ('\\d',):\n${loop.index}${wi_}\n% endfor", SyntaxWarning),
@@ -489,7 +498,7 @@ def run_warning_case(r, wname, action, path, nl, res):
     filler(r, d0, r.randint(0, 4))
     construct = construct.replace("\n", nl)
     ln = d0.add(construct + nl)
-    off = {"is-literal": 0, "invalid-escape": 0, "code-is-literal": 2, "module-warn": 2, "module-warn-ns": 3, "def-body-is-literal": 2}.get(wname, 0)
+    off = {"is-literal": 0, "invalid-escape": 0, "code-is-literal": 2, "module-warn": 2, "module-warn-ns": 3, "module-warn-second": 7, "def-body-is-literal": 2}.get(wname, 0)
     line = ln + off
     filler(r, d0, r.randint(0, 2))
     text = d0.text()
